@@ -10,7 +10,7 @@ RULE = ("targets are drawn from a small pool of mutated copies of a random refer
         "completeness ties and exact duplicates are frequent; all-N / heavily ambiguous targets placed first, in the "
         "middle and last; K in {1,2,3,n-1,n,n+2}, -d equal to an occurring distance or not, measures raw/snp/tn93, "
         "--table on/off, plain closest. Non-trivial: the target file contains duplicates (ties) or a target with an "
-        "undefined distance. Distinct by case content. tn93 distances are taken from the Go function through the "
+        "undefined distance, or a family of targets tying on distance with different SNPs and completeness. Distinct by case content. tn93 distances are taken from the Go function through the "
         "verif export (the model cannot evaluate ln); ranking, tie-breaking and printing are the model's.")
 ASSUMPTIONS = ["tn93 keys come from the implementation (C07 decides their value)",
                "sort.SliceStable is a stable sort"]
@@ -62,13 +62,31 @@ def generate(ctx):
             targets.insert(pos, rng.choice(["N" * w, "-" * w, "".join(rng.choice("NRY?") for _ in range(w))]))
             undefined = True
         queries = [gen.mutate(rng, ref, p_sub=0.1, p_amb=0.05) for _ in range(rng.randint(1, 3))]
+        tiefam = w >= 8 and rng.random() < 0.25
+        if tiefam:
+            # a family of targets at the SAME distance from the first query, each differing from it at other sites and
+            # with another number of Ns: the winner is decided by completeness, then file order, and its SNP list is its own
+            base = "".join(c if c in "ACGT" else r for c, r in zip(queries[0].upper(), ref))
+            queries[0] = base
+            d = rng.choice([1, 1, 2])
+            fam = []
+            for _ in range(rng.randint(3, 8)):
+                sites = rng.sample(range(w), d + rng.randint(0, 3))
+                row = list(base)
+                for j, i in enumerate(sites):
+                    row[i] = rng.choice([c for c in "ACGT" if c != base[i]]) if j < d else "N"
+                fam.append("".join(row))
+            targets = fam + ([rng.choice(pool)] if rng.random() < 0.5 else [])
+            rng.shuffle(targets)
         if rng.random() < 0.15:
             queries[0] = "N" * w
             undefined = True
         q = gen.layout(rng, [("q%d" % i, s) for i, s in enumerate(queries)], "plain")
         t = gen.layout(rng, [("t%d" % i, s) for i, s in enumerate(targets)], rng.choice(["plain", "wrap"]))
         measure = rng.choice(["raw", "snp", "tn93"])
-        mode = 0 if rng.random() < 0.3 else 1
+        mode = 0 if rng.random() < (0.6 if tiefam else 0.3) else 1
+        if tiefam and rng.random() < 0.6:
+            measure = "snp"
         n = len(targets)
         K = 0
         maxd = None
@@ -86,7 +104,7 @@ def generate(ctx):
             table = rng.random() < 0.5
         dup = len(set(targets)) < len(targets)
         cs.append(make_case(cid, mode, K, maxd, measure, table, q, t, rng.choice([0, 1, 2, 4]),
-                            {"kind": "%s:%s%s" % ("closestN" if mode else "closest", measure, ":big" if big else ""), "nontrivial": dup or undefined}))
+                            {"kind": "%s:%s%s" % ("closestN" if mode else "closest", measure, ":big" if big else ":tiefam" if tiefam else ""), "nontrivial": dup or undefined or tiefam}))
         cid += 1
     return cs
 
